@@ -240,20 +240,30 @@ def r4_push_pop(ctx):
     def run(fn, args):
         return [p for p in _cm_install2(Interp(fn.body, orc, args, facts=F, inline=inl)).run()]
 
-    me = Sym("self", {})
-    me.fields[map_idx] = Sym("self.map")
-    me.fields[parent_idx] = some(Sym("parent", boxlike=True))
+    nfields = len(F.adt(REG)["variants"][0]["fields"])
+
+    def registry(parent):
+        # a plain aggregate (not an opaque symbol), so that `self.parent.take()` and struct updates are followed
+        vals = [TOP] * nfields
+        vals[map_idx] = Sym("self.map")
+        vals[parent_idx] = parent
+        return Agg("adt", REG, "StateRegistry", vals)
+
+    def is_self(v):
+        return isinstance(v, Agg) and v.name == REG and v.fields[map_idx] == Sym("self.map") and isinstance(v.fields[parent_idx], Agg) and v.fields[parent_idx].variant == "Some" \
+            and v.fields[parent_idx].fields[0] == Sym("parent")
+    me = registry(some(Sym("parent", boxlike=True)))
     fn = F.fn(R + "into_child")
     ps = run(fn, [me])
     good = len(ps) == 1 and ps[0].end == "return" and isinstance(ps[0].ret, Agg) and ps[0].ret.name == REG
     if good:
         r = ps[0].ret
         pf, mf = r.fields[parent_idx], r.fields[map_idx]
-        good = isinstance(pf, Agg) and pf.variant == "Some" and pf.fields[0] == me and mf == Sym("fresh-map")
+        good = isinstance(pf, Agg) and pf.variant == "Some" and is_self(pf.fields[0]) and mf == Sym("fresh-map")
     ctx.check(good, "C01.R4", fn.key, "child-of-self-with-empty-map", "into_child does not return {parent: Some(self), map: <fresh empty map>}: %s" % [p.ret for p in ps], loc=fn.loc())
     fn = F.fn(R + "into_parent")
     for pv, label in ((some(Sym("parent", boxlike=True)), "with-parent"), (NONE, "root")):
-        me.fields[parent_idx] = pv
+        me = registry(pv)
         ps = run(fn, [me])
         good = len(ps) == 1 and ps[0].end == "return" and isinstance(ps[0].ret, Agg) and ps[0].ret.kind == "tuple" and len(ps[0].ret.fields) == 2
         if good:
